@@ -57,6 +57,7 @@ type Engine struct {
 	errors  []string
 	mu      sync.Mutex
 	funcsUnderContract map[string]bool
+	constGlobals       map[*ssa.Global]bool
 }
 
 func NewEngine(repo, workdir string) *Engine {
